@@ -467,22 +467,26 @@ func c04ShowCursor(db *TermDB, te *TermEntry, fn *ssa.Function) (okStyle, okColo
 	colours := []int64{cval("ColorRed"), cval("ColorReset"), cval("ColorNone"), int64(uint64(cval("ColorValid")) | uint64(cval("ColorIsRGB")) | 0x102030)}
 	for style := int64(0); style <= 6; style++ {
 		for _, col := range colours {
-			s1, c1, w, e := c04ShowCursorOne(db, te, fn, style, col)
-			if e != nil {
-				return false, false, "", e
-			}
-			if !s1 {
-				okStyle, why = false, w
-			}
-			if !c1 {
-				okColour, why = false, w
+			// with nothing on record, and with a style and a colour on record from an earlier Show: the record may
+			// only be dropped when the string that undoes it was sent
+			for _, recorded := range []bool{false, true} {
+				s1, c1, w, e := c04ShowCursorOne(db, te, fn, style, col, recorded)
+				if e != nil {
+					return false, false, "", e
+				}
+				if !s1 {
+					okStyle, why = false, w
+				}
+				if !c1 {
+					okColour, why = false, w
+				}
 			}
 		}
 	}
 	return okStyle, okColour, why, nil
 }
 
-func c04ShowCursorOne(db *TermDB, te *TermEntry, fn *ssa.Function, style, colour int64) (okStyle, okColour bool, why string, err error) {
+func c04ShowCursorOne(db *TermDB, te *TermEntry, fn *ssa.Function, style, colour int64, recorded bool) (okStyle, okColour bool, why string, err error) {
 	c := db.Ev.C
 	fs, tp := c04Prepared(db, te)
 	st := fs.clone()
@@ -496,6 +500,7 @@ func c04ShowCursorOne(db *TermDB, te *TermEntry, fn *ssa.Function, style, colour
 	var styles []string
 	def := ""
 	colPrefix := ""
+	colReset := ""
 	for i := 0; i < stt.NumFields(); i++ {
 		f := stt.Field(i)
 		switch f.Name() {
@@ -506,9 +511,19 @@ func c04ShowCursorOne(db *TermDB, te *TermEntry, fn *ssa.Function, style, colour
 		case "cursorStyleSet":
 			sIdx = i
 			nf.F[i] = False()
+			if recorded {
+				nf.F[i] = True()
+			}
 		case "cursorColorSet":
 			cIdx = i
 			nf.F[i] = False()
+			if recorded {
+				nf.F[i] = True()
+			}
+		case "cursorFg":
+			if s, ok := tv.F[i].(StrV); ok && s.Conc != nil {
+				colReset = stripPadding(*s.Conc)
+			}
 		case "cursorx", "cursory":
 			nf.F[i] = NumC(big.NewInt(0), c.sortOfBasic(f.Type()))
 		case "cursorStyle":
@@ -587,6 +602,18 @@ func c04ShowCursorOne(db *TermDB, te *TermEntry, fn *ssa.Function, style, colour
 			if t, ok := fv.F[cIdx].(*Term); !ok || !t.IsTrue() {
 				okColour = false
 				why = fmt.Sprintf("(output %q, flag %s)", text, showValue(fv.F[cIdx]))
+			}
+		}
+		if recorded && sIdx >= 0 && !sentStyle && !(def != "" && strings.Contains(text, def)) {
+			if t, ok := fv.F[sIdx].(*Term); !ok || !t.IsTrue() {
+				okStyle = false
+				why = fmt.Sprintf("(a cursor style was on record, output %q does not restore the default, flag now %s)", text, showValue(fv.F[sIdx]))
+			}
+		}
+		if recorded && cIdx >= 0 && !(colReset != "" && strings.Contains(text, colReset)) {
+			if t, ok := fv.F[cIdx].(*Term); !ok || !t.IsTrue() {
+				okColour = false
+				why = fmt.Sprintf("(a cursor colour was on record, output %q does not reset it, flag now %s)", text, showValue(fv.F[cIdx]))
 			}
 		}
 	}
